@@ -42,6 +42,7 @@ type metaCase struct {
 	StateSig string `json:"state_sig,omitempty"` // forged | missing | other-node | valid
 	Skip     bool   `json:"skip_flag,omitempty"`
 	Seed     int64  `json:"seed"`
+	PrefPos  string `json:"certificate_preference_position,omitempty"` // last (as the library builds it) | first | middle | then-appended
 }
 
 func nestedState(depth int, rng *rand.Rand) map[string]any {
@@ -218,6 +219,30 @@ func (w *metaWorld) run(c *engine.Ctx, mc metaCase) {
 		cfg = &tls.Config{NextProtos: protos, InsecureSkipVerify: true, MinVersion: tls.VersionTLS13,
 			GetClientCertificate: func(*tls.CertificateRequestInfo) (*tls.Certificate, error) { return cert, nil }}
 	}
+	// the application may modify the configuration the library produced: move the internal
+	// certificate-preference entry, or append its own protocols after it
+	if mc.PrefPos != "" && mc.PrefPos != "last" {
+		var pref string
+		var rest []string
+		for _, p := range cfg.NextProtos {
+			if strings.HasPrefix(p, nodeenrollment.CertificatePreferenceV1Prefix) && pref == "" {
+				pref = p
+			} else {
+				rest = append(rest, p)
+			}
+		}
+		if pref != "" {
+			switch mc.PrefPos {
+			case "first":
+				cfg.NextProtos = append([]string{pref}, rest...)
+			case "middle":
+				k := len(rest) / 2
+				cfg.NextProtos = append(append(append([]string{}, rest[:k]...), pref), rest[k:]...)
+			case "then-appended":
+				cfg.NextProtos = append(append(append([]string{}, rest...), pref), "late-1", "late-2")
+			}
+		}
+	}
 	offered := append([]string{}, cfg.NextProtos...)
 	expected := stripPref(offered)
 
@@ -350,6 +375,14 @@ func runMeta(c *engine.Ctx) engine.Result {
 			for _, ex := range []string{"none", "one", "twenty", "duplicates", "lookalikes", "reserved"} {
 				for _, sto := range []string{world.Inmem, world.Ordered} {
 					cases = append(cases, metaCase{Kind: "honest", State: st, Extras: ex, Storage: sto, Seed: rng.Int63()})
+				}
+			}
+		}
+		for _, pos := range []string{"first", "middle", "then-appended"} {
+			for _, ex := range []string{"one", "twenty", "duplicates"} {
+				for _, sto := range []string{world.Inmem, world.Ordered} {
+					cases = append(cases, metaCase{Kind: "honest", State: "flat", Extras: ex, Storage: sto, Seed: rng.Int63(), PrefPos: pos})
+					cases = append(cases, metaCase{Kind: "rogue", State: "nested", Extras: ex, Storage: sto, StateSig: "valid", Seed: rng.Int63(), PrefPos: pos})
 				}
 			}
 		}
